@@ -528,6 +528,94 @@ def r11(ctx, rep):
     rep.borrowed(C07.r16, ctx, "C01.R11", "append keeps duplicates (ALL) and each set transform becomes the operator of its name")
 
 
+def r12(ctx, rep):
+    rep.rule("C01.R12", "an ungrouped aggregate yields one row even when none of its columns is used: the placeholder of its empty projection aggregates", floor=1)
+    import alpha
+    import boolfn
+    import guards as _g
+    syn = ctx.syn
+    # role anchor: the function of sql/gen_query.rs that plucks the Aggregate out of the pipeline (`into_aggregate`) and owns `projection`
+    fs = [f for f in syn.fns_in_file("sql/gen_query.rs") if "body" in f and any(x.get("k") == "mcall" and x["m"] == "into_aggregate" for x in walk(f["body"]))]
+    if not fs:
+        raise AnchorMissing("sql/gen_query.rs: no function plucks `into_aggregate()`")
+    f = fs[0]
+    par = _g.parents(f["body"])
+    A = alpha.Inliner(f)
+    agg_re = re.compile(r"^(COUNT|MIN|MAX|SUM)\(")
+    # writes of an aggregate-call placeholder into the projection (`projection[i] = ..`, `projection.push(..)`, `*item = ..`)
+    sites = []
+    for n in walk(f["body"]):
+        val = None
+        if n.get("k") == "assign":
+            val = n["rhs"]
+        elif n.get("k") == "mcall" and n["m"] in ("push", "insert") and n["a"]:
+            val = n["a"][-1]
+        if val is None:
+            continue
+        if any(x.get("k") == "lit" and x.get("t") == "str" and agg_re.match(str(x.get("v"))) for x in walk(val)):
+            sites.append(n)
+
+    def holds(n, agg, empty):
+        """conjunction of the conditions of all enclosing `if`s (then-branches), with the tests of "the projection is the lone NULL placeholder" taken as true"""
+        cur = n
+        while id(cur) in par:
+            p = par[id(cur)]
+            if p.get("k") == "if":
+                in_then = p.get("t") is cur or _g._contains(p.get("t"), cur)
+                in_else = p.get("e") is not None and (p["e"] is cur or _g._contains(p["e"], cur))
+                if in_then or in_else:
+                    c = p["c"]
+                    if c.get("k") == "let" or (c.get("k") == "macro" and c.get("n") == "matches" and "Null" in show(c.get("pat"))):
+                        v = True          # `if let <placeholder pattern> = projection[..]` / `matches!(.., Value::Null)`: the placeholder case
+                        if in_else:
+                            return False
+                    else:
+                        def atom(t):
+                            t = t.replace(" ", "")
+                            if "into_aggregate" in t and t.endswith(".is_some()"):
+                                return agg
+                            if "into_aggregate" in t and t.endswith(".is_none()"):
+                                return not agg
+                            if re.search(r"(group_by|partition|part)\)*\.is_empty\(\)$", t) or ("into_aggregate" in t and t.endswith(".is_empty()")):
+                                return empty
+                            if "projection" in t or "Value::Null" in t or t.startswith("v.") or "placeholder" in t.lower():
+                                return True
+                            return None
+                        def ev(x):
+                            k = x.get("k")
+                            if k == "paren":
+                                return ev(x["e"])
+                            if k == "bin" and x["op"] == "&&":
+                                return ev(x["lhs"]) and ev(x["rhs"])
+                            if k == "bin" and x["op"] == "||":
+                                return ev(x["lhs"]) or ev(x["rhs"])
+                            if k == "un" and x["op"] == "!" and "projection" not in show(x):
+                                return not ev(x["e"])
+                            if "projection" in show(x, maxdepth=8):
+                                return True       # a test of the projection: the lone-placeholder case is the one under study
+                            return boolfn.ev(x, atom, A)
+                        v = ev(c)
+                        if in_else:
+                            v = not v
+                    if not v:
+                        return False
+            cur = p
+        return True
+    ok, why = False, "no write of an aggregate placeholder (`COUNT(*)`) into the projection was found"
+    for n in sites:
+        try:
+            tt = {(a, e): holds(n, a, e) for a in (True, False) for e in (True, False)}
+        except boolfn.Unknown as e:
+            why = f"the condition around the placeholder write at line {n['l']} could not be evaluated ({e})"
+            continue
+        if tt[(True, True)] and not tt[(False, True)] and not tt[(False, False)]:
+            ok = True
+        else:
+            why = f"the placeholder write at line {n['l']} happens for (aggregate present, no group) = {[k for k, v in tt.items() if v]}; it must happen for (True, True) and never without an aggregate"
+    rep.check(ok, "ungrouped-aggregate-placeholder", f"{f['path']}: when every column of an ungrouped `aggregate` is unused the projection is the NULL placeholder and `SELECT NULL FROM t` returns one row "
+              f"per input row instead of one row: {why}", file=f["file"], line=f["l"], fn=f["path"])
+
+
 def run(ctx, rep):
-    for r in (r1, r2, r3, r4, r5, r6, r7, r8, r9, r10, r11):
+    for r in (r1, r2, r3, r4, r5, r6, r7, r8, r9, r10, r11, r12):
         rep.guard(r, ctx)
